@@ -933,6 +933,17 @@ func udpRelayCase(t *testing.T, id int, rep *vreport, rng *vrng, ci udpCipher, d
 // kept its port, several NewConn sessions on one PacketConn, a NAT remapping): an out-of-band
 // message of conversation B must be delivered to B's handler or not at all, never to the handler
 // of the session of conversation A.
+// udpSafe runs f; a run-time panic becomes a value
+func udpSafe(f func()) (panicked string) {
+	defer func() {
+		if r := recover(); r != nil {
+			panicked = fmt.Sprint(r)
+		}
+	}()
+	f()
+	return ""
+}
+
 func udpOOBCase(t *testing.T, id int, rep *vreport, rng *vrng, ci udpCipher, ds, ps int) {
 	block := ci.mk()
 	l, err := ListenWithOptions("127.0.0.1:0", block, ds, ps)
@@ -1007,11 +1018,17 @@ func udpOOBCase(t *testing.T, id int, rep *vreport, rng *vrng, ci udpCipher, ds,
 			okA, okC := has(gotA, msgA[n]), has(gotC, msgC[n])
 			mu.Unlock()
 			if !okA {
-				a.SendOOB(msgA[n])
+				if pn := udpSafe(func() { a.SendOOB(msgA[n]) }); pn != "" {
+					rep.violate("session-panic:SendOOB", fmt.Sprintf("case %d (%s, fec %d/%d): SendOOB(%d bytes) panicked on the dialled session (GetOOBMaxSize() = %d): %s", id, ci.name, ds, ps, n, max, pn), replay)
+					return
+				}
 				pending++
 			}
 			if !okC {
-				sa.SendOOB(msgC[n])
+				if pn := udpSafe(func() { sa.SendOOB(msgC[n]) }); pn != "" {
+					rep.violate("session-panic:SendOOB", fmt.Sprintf("case %d (%s, fec %d/%d): SendOOB(%d bytes) panicked on the accepted session (GetOOBMaxSize() = %d): %s", id, ci.name, ds, ps, n, max, pn), replay)
+					return
+				}
 				pending++
 			}
 			if !okA || !okC {
